@@ -223,7 +223,9 @@ func (w *clientStreamWrapper) RecvMsg(m interface{}) error {
 
 func getPeer(baseUrl *url.URL, tls *tls.ConnectionState) *peer.Peer {
 	hostPort := baseUrl.Host
-	if !strings.Contains(hostPort, ":") {
+	// (not "contains no colon": an IPv6 literal such as [::1] does)
+	if baseUrl.Port() == "" {
+		hostPort = strings.TrimSuffix(hostPort, ":")
 		if baseUrl.Scheme == "https" {
 			hostPort = hostPort + ":443"
 		} else if baseUrl.Scheme == "http" {
